@@ -10,7 +10,7 @@ if [[ "$what" == revert:* ]]; then
 else
   git apply "$what" || { echo "cannot apply $what"; exit 2; }
 fi
-cd /verif && ./check "$id" --tier "$tier" 2>&1 | grep -v "rapid\] draw" | tail -${TAIL:-6}
+cd /verif && VERIF_EVIDENCE_DIR=/var/tmp/verif-evidence-scratch ./check "$id" --tier "$tier" 2>&1 | grep -v "rapid\] draw" | tail -${TAIL:-6}
 rc=${PIPESTATUS[0]}
 git -C /repo checkout -- . && git -C /repo status --short | head -3
 exit $rc
